@@ -3,6 +3,7 @@ package main
 import (
 	"encoding/json"
 	"fmt"
+	"strings"
 	"time"
 
 	"github.com/go-openapi/analysis"
@@ -107,6 +108,23 @@ func classifyGen(g *Gen) any {
 		defs[nm] = g.Schema(g.MaxDepth)
 	}
 	g.recursiveDefs(defs)
+	// two definitions whose names differ by percent-escaping only: "my def" and "my%20def".  A $ref is a URI: its
+	// fragment "#/definitions/my%20def" designates "my def"; the twin can only be reached as "my%2520def".
+	for _, nm := range sortedMapKeys(defs) {
+		if !strings.Contains(nm, " ") || !g.p(0.5) {
+			continue
+		}
+		twin := strings.ReplaceAll(nm, " ", "%20")
+		if _, taken := defs[twin]; taken {
+			continue
+		}
+		if body, _ := defs[nm].(M); body["properties"] != nil || body["allOf"] != nil {
+			defs[twin] = M{"type": "string"}
+		} else {
+			defs[twin] = M{"type": "object", "properties": M{"p": M{"type": "string"}}}
+		}
+		g.hit("classify:percent-twin")
+	}
 	root := M{"swagger": "2.0", "info": M{"title": "t", "version": "1"}, "paths": M{}, "definitions": defs}
 	var schemas []any
 	for _, nm := range sortedMapKeys(defs) {
@@ -194,6 +212,17 @@ var classifyStream = (&StreamSpec{
 			}
 			iv := get(im, "ok")
 			if e := get(iv, "error"); e != nil {
+				// $ref transparency, error side: when the target itself cannot be classified (a $ref of it dangles where the
+				// classification looks), {$ref: target} cannot either - the expansion of the target meets the same $ref
+				if i > 0 && defs != nil {
+					if pm, ok := schemas[i-1].(map[string]any); ok && len(pm) == 1 {
+						if r, ok := pm["$ref"].(string); ok && jsonEq(s, defBody(defs, c.In, r)) {
+							if rv, ok := byRef[r]; ok {
+								fs = append(fs, Finding{Kind: "property", Detail: fmt.Sprintf("{$ref: %s} classifies as %s but its target cannot be classified: %v", r, canonStr(rv), e), Signature: "classify:not-transparent-error"})
+							}
+						}
+					}
+				}
 				if outcomeTag(model) != "err" {
 					fs = append(fs, Finding{Kind: "correspondence", Detail: fmt.Sprintf("schema %s: implementation returns error %v, model %s", sd, e, canonStr(model)), Signature: "classify:err-vs-" + outcomeTag(model)})
 				}
